@@ -18,7 +18,7 @@ REPO = os.environ.get("VERIF_REPO", "/repo")
 WORK = os.path.join(VERIF, ".work")
 EVIDENCE_DIR = os.path.join(VERIF, "evidence")
 REPLAY_DIR = os.path.join(VERIF, "replays")
-KNOWN_FILE = os.path.join(VERIF, "known_findings.json")
+KNOWN_FILE = os.environ.get("VERIF_KNOWN_FILE") or os.path.join(VERIF, "known_findings.json")
 GUARD = "XONSH_XONSH_VERIF"
 
 EXIT_OK, EXIT_VIOLATION, EXIT_HARNESS = 0, 1, 2
